@@ -166,6 +166,10 @@ def c10(ctx):
     ctx.add(finalise_gates(fx))
     ctx.add(full_permissions(fx))
     ctx.add(ownership_facts(fx))
+    import p_role
+    meta_sinks = ("copy_permissions", "copy_timestamps", "copy_owner", "copy_xattr", "set_permissions", "set_times",
+                  "fchown", "set_xattr", "list_xattr", "get_xattr", "CopyHandle")
+    ctx.add([o for o in p_role.role_obs(fx) if any(m in o.key for m in meta_sinks)])
 
 
 def c18(ctx):
